@@ -32,6 +32,14 @@ CHECKS = {
         "trusts reftypes' decimal/entity rules; lenient literals outside the documented lexical space are not asserted either way",
         "property-based testing: Hypothesis generation + enumerated boundary table; round-trip / fixed-point / reference-value oracles",
     ),
+    "C02": (
+        "exploration",
+        "All trees with <=4 (thorough <=5) nodes x tag schemes x data x end-tag/CDATA choices x gaps enumerated exhaustively, larger "
+        "trees (up to 40 leaves) sampled with Hypothesis over the full rendering-choice space; the oracle is the generated abstract tree "
+        "itself (tags, nesting, order, trimmed still-escaped data, no attributes/tails); adjacent-token-pair coverage reported.",
+        "the generator's renderer is cross-checked against an independent strict scanner on every case (harness self-test)",
+        "property-based testing: exhaustive small-tree enumeration + Hypothesis sampling; oracle = generated tree (inverse / metamorphic over renderings)",
+    ),
 }
 
 PENDING_REASON = "check not built yet in this round (planned in DESIGN.md §3); not claimed until its machinery exists and is quiet on the unchanged tree"
